@@ -15,11 +15,13 @@
    run (VL [VN 10; profile; VB mid; call]) -> VL [VL [tree...]; VL [VN hole...]; VN nvalues]   the carries tables of Spec/CarriesBase.v:
         the request [wrap (fill (values c) (template p (erase c)))], the holes of the template, the number of values
    run (VL [VN 11; VB mid; vcall])         -> the same for the vendor classes (Spec/CarriesVendor.v)
+   run (VL [VN 13; sess; VL [call...]]) -> VL [outcome...]   CallHistory.history: the calls of Gating (C09_glue encodings) one after the other on ONE session
    run (VL [VN 12; VN iosxe; tree]) -> tree     Builders.transform_edit_config (the profile's hook) on an ARBITRARY tree
    (entry point 9 is unused; the carries tables were renumbered 8 -> 10, 9 -> 11 when merged with the NsScope entry point 8) *)
 From NC Require Import Model.Base Model.Xml Model.Escape Model.Gating Model.Builders Glue.C09_glue.
 From NC Require Import Model.VendorBuilders.
 From NC Require Import Model.NsScope.
+From NC Require Import Model.CallHistory.
 From NC Require Import Spec.Template Spec.CarriesBase Spec.CarriesVendor.
 From Coq Require Import ZArith.
 
@@ -239,8 +241,19 @@ Fixpoint d_dtree (v : val) : dtree :=
 Definition e_bindings (d : list binding) : val := VL (map (fun b => VL [VB (fst b); VB (snd b)]) d).
 Definition e_nat (n : nat) : val := VN (N.of_nat n).
 
+Fixpoint d_gcalls (vs : list val) : option (list Gating.call) :=
+  match vs with
+  | [] => Some []
+  | v :: r => match C09_glue.d_call v, d_gcalls r with Some c, Some cs => Some (c :: cs) | _, _ => None end
+  end.
+
 Definition run (v : val) : val :=
   match v with
+  | VL [VN 13; s; VL cs] =>
+      match C09_glue.d_sess s, d_gcalls cs with
+      | Some s', Some cs' => VL (map (fun r => C09_glue.e_outcome (snd r)) (fst (history s' cs')))
+      | _, _ => verr 1
+      end
   | VL [VN 1; p; VB mid; c] =>
       match d_profile p, d_opcall c with
       | Some p', Some c' =>
